@@ -3,9 +3,9 @@ package main
 import (
 	"fmt"
 	"go/ast"
-	"path/filepath"
 	"go/token"
 	"go/types"
+	"path/filepath"
 	"strings"
 
 	"golang.org/x/tools/go/ssa"
@@ -1680,6 +1680,47 @@ func runR72(c *Ctx) {
 				}
 				if isStore(g.li.header) {
 					skipped = false
+				}
+				if fresh && skipped {
+					// a skip taken because the cell is null leaves the zero value / nil on purpose: re-explore without
+					// following the `is null` edges
+					skipped = false
+					var dfs func(b *ssa.BasicBlock, seen map[*ssa.BasicBlock]bool)
+					dfs = func(b *ssa.BasicBlock, seen map[*ssa.BasicBlock]bool) {
+						if seen[b] || skipped {
+							return
+						}
+						seen[b] = true
+						if b == g.li.header {
+							skipped = true
+							return
+						}
+						if isStore(b) || !inLoop(*g.li, b) {
+							return
+						}
+						follow := []bool{true, true}
+						if iff, ok := b.Instrs[len(b.Instrs)-1].(*ssa.If); ok {
+							cond, val := unNot(iff.Cond, true)
+							if isNullPredicate(cond) {
+								if val {
+									follow[0] = false
+								} else {
+									follow[1] = false
+								}
+							}
+						}
+						for i, sc := range b.Succs {
+							if i < 2 && !follow[i] {
+								continue
+							}
+							dfs(sc, seen)
+						}
+					}
+					for _, succ := range g.li.header.Succs {
+						if inLoop(*g.li, succ) && succ != g.li.header {
+							dfs(succ, map[*ssa.BasicBlock]bool{})
+						}
+					}
 				}
 				if fresh && skipped {
 					c.bad(key, pos, fmt.Sprintf("%s is filled element by element but an iteration can reach the next one without storing its element: that element silently stays zero (a case of the conversion that forgets its assignment)", accessPath(g.target)))
